@@ -94,7 +94,7 @@ def alignment(ev: ConstEval, t) -> int:
         if pack:
             a = min(a, pack)
         return a
-    raise AnalysisError(f"alignment of {t!r}")
+    raise AnalysisError(f"alignment of a {type(t).__name__}: {str(t)[:60]}")
 
 
 def sizeof(ev: ConstEval, t) -> int:
@@ -229,7 +229,9 @@ def eval_add_padding(ev: ConstEval, mod, fn: ast.FunctionDef, call: ast.Call, m,
             if isinstance(t, ast.Compare) and isinstance(t.ops[0], ast.GtE) and src(t.comparators[0]) == "0" and isinstance(padcount, ast.Name) and src(t.left) == padcount.id:
                 has_assert = True
     if not isinstance(base, CStructRef) or total is None or padname is None:
-        raise AnalysisError("encoding.add_padding no longer has the modelled shape")
+        # written differently: the function is executed by the checker's interpreter on this field list (structure classes it
+        # creates on the fly are modelled by their size)
+        return _run_add_padding(ev, mod, fn, fields)
     bc = struct_class(ev, base)
     base_fields = struct_fields(ev, bc)
     _, cur = layout_fields(ev, base_fields + [tuple(f) + (None,) * (3 - len(f)) for f in fields], struct_pack(ev, bc))
@@ -239,3 +241,14 @@ def eval_add_padding(ev: ConstEval, mod, fn: ast.FunctionDef, call: ast.Call, m,
             raise AnalysisError(f"command fields {fields!r} exceed {total} bytes (add_padding asserts)")
         pad = 0
     return list(fields) + [(padname, CArray(padtype, pad))]
+
+
+def _run_add_padding(ev: ConstEval, mod, fn: ast.FunctionDef, fields):
+    from . import circuit as C
+    try:
+        out = C.Interp(ev.repo, ev, C.Scenario(), None).call_function(mod, fn, [list(fields)], {})
+    except C.EvalRaise as ex_:
+        raise AnalysisError(f"encoding.add_padding refuses the fields {fields!r}: {ex_}")
+    if not isinstance(out, list) or not all(isinstance(f, (tuple, list)) and len(f) in (2, 3) for f in out):
+        raise AnalysisError(f"encoding.add_padding returns {out!r}")
+    return [tuple(f) for f in out]
